@@ -26,6 +26,7 @@ use vh::*;
 const STUN_TIMEOUT_MS: u64 = 300;
 const NOM_TIMEOUT_MS: u64 = 400;
 const MAGIC: u32 = 0x2112_A442;
+static NEXT_TCP_PORT: std::sync::atomic::AtomicU16 = std::sync::atomic::AtomicU16::new(0);
 static NEXT_PORT: std::sync::atomic::AtomicU16 = std::sync::atomic::AtomicU16::new(0);
 
 // ------------------------------------------------------------------ STUN wire helpers (own code)
@@ -161,7 +162,8 @@ enum HOp {
     SelectPair { sock: usize },
     /// `tcp: Some(i)`: sent as an RFC 4571 frame on the i-th TCP connection to the passive ICE-TCP candidate (sock ignored)
     Req { sock: usize, user: UserKind, mi: MiKind, uc: bool, prio: Option<u32>, method: u16, enc: Enc, fp: bool, tcp: Option<usize> },
-    Resp { sock: usize, succ: bool, tx: TxRef, method: u16, with_mi: bool },
+    /// `ecode` (error responses): 0 = ERROR-CODE 401, 1 = no ERROR-CODE attribute, 2 = truncated ERROR-CODE (2 bytes), 3 = 487, 4 = 400
+    Resp { sock: usize, succ: bool, tx: TxRef, method: u16, with_mi: bool, ecode: u8 },
     Raw { sock: usize, kind: RawKind },
     /// an outgoing Binding request of the agent is expected on this socket; it becomes `Launch`
     Capture { sock: usize, round: i64, nom: bool },
@@ -351,6 +353,7 @@ async fn run_case(spec: &Spec, seed: u64) -> Ran {
         let mut req_view: Option<ReqView> = None;
         let mut udp_pkt: Option<(SocketAddr, Facts)> = None;      // a datagram sent to the agent's UDP socket by this operation
         let mut must_honour: Option<String> = None;             // a genuine answer to an outstanding transaction
+        let mut must_not_advance: Option<(String, bool)> = None; // a live id answered by something that is no Binding success (what, nominated phase)
         match op {
             HOp::Start => {
                 if let Err(e) = t.start(rpar.clone()) { ran.harness_err = Some(format!("start: {e}")); break; }
@@ -417,9 +420,20 @@ async fn run_case(spec: &Spec, seed: u64) -> Ran {
                 let mut via_tcp: Option<usize> = None;
                 if let (Some(i), Some(ltc)) = (tcp, &ltc) {
                     while tcps.len() <= *i {
-                        match tokio::net::TcpStream::connect(ltc.address).await {
-                            Ok(st) => { let a = st.local_addr().unwrap(); tcps.push(TcpCli { s: st, addr: a, buf: vec![] }); }
-                            Err(e) => { ran.harness_err = Some(format!("TCP connect to the passive candidate failed: {e}")); break; }
+                        // source port below the ephemeral range: a controlling agent actively connects to learned TCP
+                        // candidates, and a connect() to an ephemeral loopback port can pick that same port as its source
+                        // and connect to itself (the agent then answers its own check) -- keep that out of the experiment
+                        let mut conn = None;
+                        for _ in 0..3000 {
+                            let p = 10000 + (std::process::id() as u16).wrapping_mul(37).wrapping_add(NEXT_TCP_PORT.fetch_add(1, std::sync::atomic::Ordering::Relaxed)) % 9000;
+                            let Ok(sock) = tokio::net::TcpSocket::new_v4() else { continue };
+                            let _ = sock.set_reuseaddr(true);
+                            if sock.bind(SocketAddr::new(IpAddr::V4(Ipv4Addr::LOCALHOST), p)).is_err() { continue; }
+                            if let Ok(st) = sock.connect(ltc.address).await { conn = Some(st); break; }
+                        }
+                        match conn {
+                            Some(st) => { let a = st.local_addr().unwrap(); tcps.push(TcpCli { s: st, addr: a, buf: vec![] }); }
+                            None => { ran.harness_err = Some("TCP connect to the passive candidate failed".into()); break; }
                         }
                     }
                     if ran.harness_err.is_some() { break; }
@@ -477,7 +491,7 @@ async fn run_case(spec: &Spec, seed: u64) -> Ran {
                     what: format!("request from {}{} with USERNAME {:?}, MESSAGE-INTEGRITY {:?}, USE-CANDIDATE {}", src, if via_tcp.is_some() { " (ICE-TCP stream)" } else { "" }, user, mi, uc) });
                 ran.stats.push(format!("req:{}", if authenticated(&f) { "auth" } else { "unauth" }));
             }
-            HOp::Resp { sock, succ, tx, method, with_mi } => {
+            HOp::Resp { sock, succ, tx, method, with_mi, ecode } => {
                 let txb: [u8; 12] = match tx {
                     TxRef::Random => r.bytes(12).try_into().unwrap(),
                     TxRef::Live(i) | TxRef::Stale(i) => match captured.get(*i) { Some(c) => c.tx, None => { ran.harness_err = Some("no captured transaction to answer".into()); break; } },
@@ -493,7 +507,13 @@ async fn run_case(spec: &Spec, seed: u64) -> Ran {
                     if let IpAddr::V4(ip) = agent_addr.ip() { v.extend_from_slice(&(u32::from(ip) ^ MAGIC).to_be_bytes()); }
                     attrs.push((0x0020, v));
                 } else {
-                    attrs.push((0x0009, vec![0, 0, 4, 1, b'U', b'n', b'a', b'u']));
+                    match ecode {
+                        1 => {}
+                        2 => attrs.push((0x0009, vec![0, 0])),
+                        3 => attrs.push((0x0009, vec![0, 0, 4, 87, b'R', b'o', b'l', b'e'])),
+                        4 => attrs.push((0x0009, vec![0, 0, 4, 0, b'B', b'a', b'd', b' '])),
+                        _ => attrs.push((0x0009, vec![0, 0, 4, 1, b'U', b'n', b'a', b'u'])),
+                    }
                 }
                 let bytes = build_stun(ty, &txb, &attrs, if *with_mi { Some(rpar.password.as_bytes()) } else { None }, false, true);
                 let f = facts(&bytes, &want_user, &lpar.password);
@@ -508,6 +528,10 @@ async fn run_case(spec: &Spec, seed: u64) -> Ran {
                             if c.nom { "nomination check" } else { "connectivity check" }, age.as_millis(), socks[c.sock].addr));
                     }
                     c.got_response = true;
+                    if !(*succ && *method == 1) {
+                        must_not_advance = Some((format!("{} response (method {:#x}, ERROR-CODE kind {}) echoing the live transaction id of the agent's own {}",
+                            if *succ { "success" } else { "error" }, method, ecode, if c.nom { "nomination check" } else { "connectivity check" }), c.nom));
+                    }
                 }
                 udp_pkt = Some((src, f.clone()));
                 socks[*sock].s.send_to(&bytes, agent_addr).await.ok();
@@ -662,6 +686,15 @@ async fn run_case(spec: &Spec, seed: u64) -> Ran {
                     what, ran.descs.iter().map(|d| d["op"].to_string().chars().take(90).collect::<String>()).collect::<Vec<_>>().join(" | "), obs_json(&prev), obs_json(&cur)));
             }
         }
+        // (c) only a Binding SUCCESS response may advance a check: an error response (with, without or with a truncated
+        //     ERROR-CODE), or a success of another method, for a live id must not select a pair / connect / nominate
+        if let Some((what, nom_phase)) = &must_not_advance {
+            let advanced = if *nom_phase { cur.nom == 1 && prev.nom != 1 }
+                           else { (cur.state == 2 && prev.state != 2) || (cur.selected.is_some() && prev.selected.is_none()) };
+            if advanced && ran.fail.is_none() {
+                ran.fail = Some(format!("a {} was taken for a successful check: {} -> {}", what, obs_json(&prev), obs_json(&cur)));
+            }
+        }
         if !demux_dropped { oracle_step(spec, op, req_view.as_ref(), &prev, &cur, &mut ran.fail, &mut ran.known); }
         if unsolicited_seen && baseline_after_unsolicited.is_none() { baseline_after_unsolicited = Some(prev.clone()); }
         if !protected_eq(&prev, &cur) { ran.nontrivial = true; }
@@ -732,7 +765,7 @@ fn oracle_step(spec: &Spec, op: &HOp, rv: Option<&ReqView>, prev: &Obs, cur: &Ob
         if cur.remotes != prev.remotes {
             let was_known = prev.remotes.iter().any(|c| c.addr == src);
             let appended = cur.remotes.len() == prev.remotes.len() + 1 && cur.remotes[..prev.remotes.len()] == prev.remotes[..]
-                && cur.remotes.last().map(|c| c.addr == src && c.typ == 2 && c.tcp == rv.tcp).unwrap_or(false);
+                && cur.remotes.last().map(|c| c.addr == src && c.typ == 2 && c.tcp == rv.tcp && c.prio == PRFLX_PRIO).unwrap_or(false);
             if was_known || !appended { listed = false; }
         }
         // (2) selected pair: latching retarget (same port, other ip) or -- on the controlled side -- USE-CANDIDATE on a
@@ -768,6 +801,8 @@ fn oracle_step(spec: &Spec, op: &HOp, rv: Option<&ReqView>, prev: &Obs, cur: &Ob
 
 // ------------------------------------------------------------------ generators
 const HOST_PRIO: u32 = (126 << 24) | (65535 << 8) | 255;
+/// RFC 8445 5.1.2.1: peer-reflexive type preference 110, local preference 65535, component 1
+const PRFLX_PRIO: u32 = (110 << 24) | (65535 << 8) | 255;
 
 fn req(sock: usize, user: UserKind, mi: MiKind, uc: bool) -> HOp {
     HOp::Req { sock, user, mi, uc, prio: Some(1845501695), method: 1, enc: Enc::Own, fp: true, tcp: None }
@@ -802,18 +837,18 @@ fn corpus() -> Vec<Spec> {
     // responses: random id, then the live id of the agent's own check answered from a third socket
     v.push(Spec { role: IceRole::Controlled, latching: false, mux: false, tcp: false, kind: "corpus".into(),
         ops: vec![HOp::AddRemote { sock: 0, prio: HOST_PRIO, typ: 0 }, HOp::Start, HOp::Capture { sock: 0, round: 1, nom: false },
-                  HOp::Resp { sock: 2, succ: true, tx: TxRef::Random, method: 1, with_mi: false },
-                  HOp::Resp { sock: 2, succ: true, tx: TxRef::Live(0), method: 1, with_mi: false }, HOp::AwaitRound { round: 1 }] });
+                  HOp::Resp { sock: 2, succ: true, tx: TxRef::Random, method: 1, with_mi: false, ecode: 0 },
+                  HOp::Resp { sock: 2, succ: true, tx: TxRef::Live(0), method: 1, with_mi: false, ecode: 0 }, HOp::AwaitRound { round: 1 }] });
     // the agent's own check looped back (hair-pinning NAT / reflector / replay) as a request and as an indication with the
     // same transaction id must not consume the transaction: the genuine response that follows is honoured
     for (role, from) in [(IceRole::Controlled, 0usize), (IceRole::Controlled, 2), (IceRole::Controlling, 0)] {
         let mut ops = vec![HOp::AddRemote { sock: 0, prio: HOST_PRIO, typ: 0 }, HOp::Start, HOp::Capture { sock: 0, round: 1, nom: false },
             HOp::Raw { sock: from, kind: RawKind::Echo { cap: 0, indication: false } },
             HOp::Raw { sock: from, kind: RawKind::Echo { cap: 0, indication: true } },
-            HOp::Resp { sock: 0, succ: true, tx: TxRef::Live(0), method: 1, with_mi: true }, HOp::AwaitRound { round: 1 }];
+            HOp::Resp { sock: 0, succ: true, tx: TxRef::Live(0), method: 1, with_mi: true, ecode: 0 }, HOp::AwaitRound { round: 1 }];
         if role == IceRole::Controlling {
             ops.extend([HOp::Capture { sock: 0, round: 1, nom: true }, HOp::Raw { sock: 0, kind: RawKind::Echo { cap: 1, indication: false } },
-                HOp::Resp { sock: 0, succ: true, tx: TxRef::Live(1), method: 1, with_mi: true }, HOp::AwaitNom { round: 1 }]);
+                HOp::Resp { sock: 0, succ: true, tx: TxRef::Live(1), method: 1, with_mi: true, ecode: 0 }, HOp::AwaitNom { round: 1 }]);
         }
         v.push(Spec { role, latching: false, mux: false, tcp: false, kind: "corpus".into(), ops });
     }
@@ -823,22 +858,42 @@ fn corpus() -> Vec<Spec> {
             ops: vec![HOp::AddRemote { sock: 0, prio: HOST_PRIO, typ: 0 }, HOp::Start, req(0, UserKind::Right, MiKind::Right, false),
                       req(2, UserKind::None, MiKind::None, uc), HOp::Raw { sock: 2, kind: RawKind::Dtls }] });
     }
+    // only a Binding SUCCESS may complete a check: error responses for the live id with ERROR-CODE 401 / none / truncated / 487 / 400,
+    // a success of another method, an indication with the live id
+    for role in [IceRole::Controlled, IceRole::Controlling] {
+        for ecode in 0u8..7 {
+            let bad = |i: usize| match ecode {
+                5 => HOp::Resp { sock: 0, succ: true, tx: TxRef::Live(i), method: 3, with_mi: false, ecode: 0 },
+                6 => HOp::Raw { sock: 0, kind: RawKind::Echo { cap: i, indication: true } },
+                e => HOp::Resp { sock: 0, succ: false, tx: TxRef::Live(i), method: 1, with_mi: e % 2 == 0, ecode: e },
+            };
+            v.push(Spec { role, latching: false, mux: false, tcp: false, kind: "corpus".into(),
+                ops: vec![HOp::AddRemote { sock: 0, prio: HOST_PRIO, typ: 0 }, HOp::Start, HOp::Capture { sock: 0, round: 1, nom: false },
+                          bad(0), HOp::AwaitRound { round: 1 }] });
+            if role == IceRole::Controlling {
+                v.push(Spec { role, latching: false, mux: false, tcp: false, kind: "corpus".into(),
+                    ops: vec![HOp::AddRemote { sock: 0, prio: HOST_PRIO, typ: 0 }, HOp::Start, HOp::Capture { sock: 0, round: 1, nom: false },
+                              HOp::Resp { sock: 0, succ: true, tx: TxRef::Live(0), method: 1, with_mi: true, ecode: 0 }, HOp::AwaitRound { round: 1 },
+                              HOp::Capture { sock: 0, round: 1, nom: true }, bad(1), HOp::AwaitNom { round: 1 }] });
+            }
+        }
+    }
     // error response consumes the transaction: a later success with the same id is not honoured
     v.push(Spec { role: IceRole::Controlled, latching: false, mux: false, tcp: false, kind: "corpus".into(),
         ops: vec![HOp::AddRemote { sock: 0, prio: HOST_PRIO, typ: 0 }, HOp::Start, HOp::Capture { sock: 0, round: 1, nom: false },
-                  HOp::Resp { sock: 0, succ: false, tx: TxRef::Live(0), method: 1, with_mi: false },
-                  HOp::Resp { sock: 0, succ: true, tx: TxRef::Stale(0), method: 1, with_mi: false }, HOp::AwaitRound { round: 1 }] });
+                  HOp::Resp { sock: 0, succ: false, tx: TxRef::Live(0), method: 1, with_mi: false, ecode: 0 },
+                  HOp::Resp { sock: 0, succ: true, tx: TxRef::Stale(0), method: 1, with_mi: false, ecode: 0 }, HOp::AwaitRound { round: 1 }] });
     // controlling: check answered, nomination answered
     v.push(Spec { role: IceRole::Controlling, latching: false, mux: false, tcp: false, kind: "corpus".into(),
         ops: vec![HOp::AddRemote { sock: 0, prio: HOST_PRIO, typ: 0 }, HOp::Start, HOp::Capture { sock: 0, round: 1, nom: false },
-                  HOp::Resp { sock: 0, succ: true, tx: TxRef::Live(0), method: 1, with_mi: true }, HOp::AwaitRound { round: 1 },
-                  HOp::Capture { sock: 0, round: 1, nom: true }, HOp::Resp { sock: 0, succ: true, tx: TxRef::Live(1), method: 1, with_mi: true },
+                  HOp::Resp { sock: 0, succ: true, tx: TxRef::Live(0), method: 1, with_mi: true, ecode: 0 }, HOp::AwaitRound { round: 1 },
+                  HOp::Capture { sock: 0, round: 1, nom: true }, HOp::Resp { sock: 0, succ: true, tx: TxRef::Live(1), method: 1, with_mi: true, ecode: 0 },
                   HOp::AwaitNom { round: 1 }] });
     // controlling: check answered, nomination never answered -> nomination failed
     v.push(Spec { role: IceRole::Controlling, latching: false, mux: false, tcp: false, kind: "corpus".into(),
         ops: vec![HOp::AddRemote { sock: 0, prio: HOST_PRIO, typ: 0 }, HOp::Start, HOp::Capture { sock: 0, round: 1, nom: false },
-                  HOp::Resp { sock: 0, succ: true, tx: TxRef::Live(0), method: 1, with_mi: true }, HOp::AwaitRound { round: 1 },
-                  HOp::Capture { sock: 0, round: 1, nom: true }, HOp::Resp { sock: 2, succ: true, tx: TxRef::Random, method: 1, with_mi: true },
+                  HOp::Resp { sock: 0, succ: true, tx: TxRef::Live(0), method: 1, with_mi: true, ecode: 0 }, HOp::AwaitRound { round: 1 },
+                  HOp::Capture { sock: 0, round: 1, nom: true }, HOp::Resp { sock: 2, succ: true, tx: TxRef::Random, method: 1, with_mi: true, ecode: 0 },
                   HOp::AwaitNom { round: 1 }] });
     v
 }
@@ -896,6 +951,16 @@ fn upgrade_family() -> Vec<Spec> {
                     ops.push(req(2, u, m, true)); // and the stranger (learned prflx priority 1862270975)
                     ops.push(req(0, UserKind::Right, MiKind::Right, true)); // the original peer again
                     v.push(Spec { role: IceRole::Controlled, latching, mux: false, tcp: false, ops, kind: "upgrade".into() });
+                    // after nomination: a stranger's USE-CANDIDATE whose PRIORITY attribute is below / equal / above the nominated
+                    // candidate's, at the host priority, 0x7FFFFFFF and 0xFFFFFFFF (the attribute must not matter)
+                    if delta == 0 {
+                        for pa in [base.wrapping_sub(1), base, base.saturating_add(1), HOST_PRIO, 0x7FFF_FFFF, 0xFFFF_FFFF] {
+                            let mut ops = prelude(Pre::ConnectedNominated, base, p1);
+                            ops.push(HOp::Req { sock: 2, user: u, mi: m, uc: true, prio: Some(pa), method: 1, enc: Enc::Own, fp: true, tcp: None });
+                            ops.push(HOp::Req { sock: 2, user: u, mi: m, uc: true, prio: Some(pa), method: 1, enc: Enc::Own, fp: true, tcp: None });
+                            v.push(Spec { role: IceRole::Controlled, latching, mux: false, tcp: false, ops, kind: "upgrade".into() });
+                        }
+                    }
                 }
             }
         }
@@ -929,7 +994,7 @@ fn mux_family() -> Vec<Spec> {
                     ops.push(req(2, UserKind::None, MiKind::None, uc));
                     ops.push(req(1, UserKind::NoColon, MiKind::Right, uc));
                     ops.push(HOp::Raw { sock: 2, kind: RawKind::Dtls });
-                    ops.push(HOp::Resp { sock: 2, succ: true, tx: TxRef::Random, method: 1, with_mi: false });
+                    ops.push(HOp::Resp { sock: 2, succ: true, tx: TxRef::Random, method: 1, with_mi: false, ecode: 0 });
                     ops.push(req(2, UserKind::WrongBoth, MiKind::None, uc)); // names another session: recorded as not ours
                     ops.push(req(2, UserKind::None, MiKind::None, uc));
                     v.push(Spec { role, latching: false, mux: true, tcp: false, ops, kind: "mux".into() });
@@ -940,7 +1005,7 @@ fn mux_family() -> Vec<Spec> {
         for map_first in [false, true] {
             let mut ops = vec![HOp::AddRemote { sock: 0, prio: HOST_PRIO, typ: 0 }, HOp::Start, HOp::Capture { sock: 0, round: 1, nom: false }];
             if map_first { ops.push(req(0, UserKind::WrongRemote, MiKind::None, false)); }
-            ops.push(HOp::Resp { sock: 0, succ: true, tx: TxRef::Live(0), method: 1, with_mi: false });
+            ops.push(HOp::Resp { sock: 0, succ: true, tx: TxRef::Live(0), method: 1, with_mi: false, ecode: 0 });
             ops.push(HOp::AwaitRound { round: 1 });
             v.push(Spec { role, latching: false, mux: true, tcp: false, ops, kind: "mux".into() });
         }
@@ -1011,7 +1076,7 @@ fn random_seq(r: &mut Rng) -> Spec {
         ops.push(if k < 70 { let mut q = random_req(r, nsock);
                              if tcp && r.chance(1, 2) { if let HOp::Req { tcp: t, .. } = &mut q { *t = Some(r.below(2) as usize); } }
                              q }
-            else if k < 80 { HOp::Resp { sock: r.below(3) as usize, succ: r.chance(2, 3), tx: TxRef::Random, method: if r.chance(4, 5) { 1 } else { 3 }, with_mi: r.chance(1, 2) } }
+            else if k < 80 { HOp::Resp { sock: r.below(3) as usize, succ: r.chance(2, 3), tx: TxRef::Random, method: if r.chance(4, 5) { 1 } else { 3 }, with_mi: r.chance(1, 2), ecode: (r.below(5)) as u8 } }
             else if k < 92 { random_raw(r, nsock) }
             else if k < 96 { HOp::SelectPair { sock: r.below(2) as usize } }
             else { HOp::AddRemote { sock: 2, prio: *r.pick(&[HOST_PRIO, 1862270975u32, 5]), typ: *r.pick(&[0u8, 1, 2, 3]) } });
@@ -1029,7 +1094,7 @@ fn response_scenarios(r: &mut Rng, n: usize) -> Vec<Spec> {
         for _ in 0..r.below(3) {
             ops.push(match r.below(5) {
                 3 | 4 => HOp::Raw { sock: *r.pick(&[0usize, 0, 2]), kind: RawKind::Echo { cap: 0, indication: r.chance(1, 3) } },
-                0 => HOp::Resp { sock: r.below(3) as usize, succ: r.chance(1, 2), tx: TxRef::Random, method: 1, with_mi: r.chance(1, 2) },
+                0 => HOp::Resp { sock: r.below(3) as usize, succ: r.chance(1, 2), tx: TxRef::Random, method: 1, with_mi: r.chance(1, 2), ecode: (r.below(5)) as u8 },
                 1 => random_raw(r, 3),
                 _ => req(1 + r.below(2) as usize, pick_user(r), pick_mi(r), false),
             });
@@ -1037,12 +1102,12 @@ fn response_scenarios(r: &mut Rng, n: usize) -> Vec<Spec> {
         let variant = r.below(6);
         let from = r.below(3) as usize;
         match variant {
-            0 | 1 => { ops.push(HOp::Resp { sock: from, succ: true, tx: TxRef::Live(0), method: 1, with_mi: r.chance(1, 2) }); }
-            2 => { ops.push(HOp::Resp { sock: from, succ: false, tx: TxRef::Live(0), method: 1, with_mi: false });
-                   ops.push(HOp::Resp { sock: from, succ: true, tx: TxRef::Stale(0), method: 1, with_mi: false }); }
-            3 => { ops.push(HOp::Resp { sock: from, succ: true, tx: TxRef::Live(0), method: 3, with_mi: false }); } // Allocate success on a Binding transaction
-            4 => { ops.push(HOp::Resp { sock: from, succ: true, tx: TxRef::Live(0), method: 1, with_mi: false });
-                   ops.push(HOp::Resp { sock: from, succ: false, tx: TxRef::Stale(0), method: 1, with_mi: false }); }
+            0 | 1 => { ops.push(HOp::Resp { sock: from, succ: true, tx: TxRef::Live(0), method: 1, with_mi: r.chance(1, 2), ecode: (r.below(5)) as u8 }); }
+            2 => { ops.push(HOp::Resp { sock: from, succ: false, tx: TxRef::Live(0), method: 1, with_mi: false, ecode: (i % 5) as u8 });
+                   ops.push(HOp::Resp { sock: from, succ: true, tx: TxRef::Stale(0), method: 1, with_mi: false, ecode: 0 }); }
+            3 => { ops.push(HOp::Resp { sock: from, succ: true, tx: TxRef::Live(0), method: 3, with_mi: false, ecode: 0 }); } // Allocate success on a Binding transaction
+            4 => { ops.push(HOp::Resp { sock: from, succ: true, tx: TxRef::Live(0), method: 1, with_mi: false, ecode: 0 });
+                   ops.push(HOp::Resp { sock: from, succ: false, tx: TxRef::Stale(0), method: 1, with_mi: false, ecode: 0 }); }
             _ => {} // nobody answers: the transaction expires
         }
         ops.push(HOp::AwaitRound { round: 1 });
@@ -1051,14 +1116,14 @@ fn response_scenarios(r: &mut Rng, n: usize) -> Vec<Spec> {
             ops.push(HOp::Capture { sock: 0, round: 1, nom: true });
             if r.chance(1, 2) { ops.push(HOp::Raw { sock: 0, kind: RawKind::Echo { cap: 1, indication: r.chance(1, 3) } }); }
             match r.below(3) {
-                0 => ops.push(HOp::Resp { sock: from, succ: true, tx: TxRef::Live(1), method: 1, with_mi: false }),
-                1 => ops.push(HOp::Resp { sock: from, succ: true, tx: TxRef::Stale(0), method: 1, with_mi: false }),
-                _ => ops.push(HOp::Resp { sock: from, succ: false, tx: TxRef::Live(1), method: 1, with_mi: false }),
+                0 => ops.push(HOp::Resp { sock: from, succ: true, tx: TxRef::Live(1), method: 1, with_mi: false, ecode: 0 }),
+                1 => ops.push(HOp::Resp { sock: from, succ: true, tx: TxRef::Stale(0), method: 1, with_mi: false, ecode: 0 }),
+                _ => ops.push(HOp::Resp { sock: from, succ: false, tx: TxRef::Live(1), method: 1, with_mi: false, ecode: (i % 5) as u8 }),
             }
             ops.push(HOp::AwaitNom { round: 1 });
         } else if !answered_ok {
             // after the round is over its transaction id is stale: a late success must not be honoured
-            ops.push(HOp::Resp { sock: 0, succ: true, tx: TxRef::Stale(0), method: 1, with_mi: true });
+            ops.push(HOp::Resp { sock: 0, succ: true, tx: TxRef::Stale(0), method: 1, with_mi: true, ecode: 0 });
             ops.push(HOp::AwaitRound { round: 2 });
         }
         v.push(Spec { role, latching: false, mux: false, tcp: false, ops, kind: "responses".into() });
@@ -1079,6 +1144,7 @@ async fn main() {
     specs.extend(tcp_family());
     specs.extend(response_scenarios(&mut r, if thorough { 240 } else { 60 }));
     for _ in 0..(if thorough { 12000 } else { 2200 }) { specs.push(random_seq(&mut r)); }
+    if let Ok(k) = std::env::var("C06_ONLY") { specs.retain(|s| s.kind == k); }
     if let Ok(n) = std::env::var("C06_LIMIT") { specs.truncate(n.parse().unwrap_or(usize::MAX)); }
 
     let mut stats: BTreeMap<String, u64> = BTreeMap::new();
